@@ -3,10 +3,10 @@
   Theorems about the state machine of Model/C10.lean (which follows image.hpp member by member) and about the
   GENERATED size formulas of Gen/C10.lean (re-translated from image.hpp / utilities.hpp on every run).
 -/
-import GilVerif.Model.C10
+import GilVerif.Lemmas.C10
 
 namespace GilVerif.Props.C10
-open GilVerif.Gen.C10 GilVerif.Model.C10
+open GilVerif.Gen.C10 GilVerif.Model.C10 GilVerif.Lemmas.C10
 
 /-! ### utilities.hpp `align` (generated): the smallest multiple of the alignment not below the value -/
 
@@ -31,5 +31,353 @@ theorem C10_align_spec (v a : Int) (hv : 0 ≤ v) (ha : 0 < a) (hfit : v + a < 1
     rw [this]; simp
 
 example : align 13 8 = 16 ∧ align 16 8 = 16 ∧ align 0 4 = 0 := by decide
+
+
+/-- get_row_size_in_memunits (generated): without alignment exactly `width * step`; with alignment the smallest
+    multiple of `alignment * byte_to_memunit` that holds the row -/
+theorem C10_row_size_spec (w al mstep b2m : Int) (hw : 0 ≤ w) (hm : 0 < mstep) (hb : 0 < b2m) (ha : 0 ≤ al)
+    (hfit : w * mstep + al * b2m < 18446744073709551616) :
+    (al = 0 → row_size w al mstep b2m = w * mstep) ∧
+    (0 < al → row_size w al mstep b2m % (al * b2m) = 0 ∧ w * mstep ≤ row_size w al mstep b2m ∧ row_size w al mstep b2m < w * mstep + al * b2m) := by
+  have hwm : 0 ≤ w * mstep := Int.mul_nonneg hw (by omega)
+  have hab : 0 ≤ al * b2m := Int.mul_nonneg ha (by omega)
+  have e1 : (w * mstep) % 18446744073709551616 = w * mstep := Int.emod_eq_of_lt hwm (by omega)
+  constructor
+  · intro h0; unfold row_size; simp [h0, e1]
+  · intro hpos
+    have hab' : 0 < al * b2m := Int.mul_pos hpos hb
+    have e2 : b2m % 18446744073709551616 = b2m := by
+      have : b2m ≤ al * b2m := by
+        have := Int.mul_le_mul_of_nonneg_right (show (1 : Int) ≤ al by omega) (show (0 : Int) ≤ b2m by omega)
+        simpa using this
+      exact Int.emod_eq_of_lt (by omega) (by omega)
+    have e3 : (al * b2m) % 18446744073709551616 = al * b2m := Int.emod_eq_of_lt hab (by omega)
+    unfold row_size
+    simp only [hpos, if_true, e1, e2, e3]
+    exact C10_align_spec (w * mstep) (al * b2m) hwm hab' hfit
+
+example : row_size 3 4 3 1 = 12 ∧ row_size 9 1 1 8 = 16 ∧ row_size 5 0 2 1 = 10 := by decide
+
+/-- total_allocated_size_in_bytes (generated, interleaved): enough for `h` rows of the padded row size (rounded up to bytes)
+    plus the `alignment - 1` bytes that aligning the first pixel can skip; nothing is allocated beyond that -/
+theorem C10_total_interleaved_spec (w h al mstep b2m ch : Int) (hh : 0 ≤ h)
+    (hr0 : 0 ≤ row_size w al mstep b2m) (hb : 0 < b2m) (hb' : b2m ≤ 8) (ha : 0 ≤ al)
+    (hfit : row_size w al mstep b2m * h + 8 + al < 18446744073709551616) :
+    total_bytes_interleaved w h al mstep b2m ch =
+      (row_size w al mstep b2m * h + b2m - 1) / b2m + (if al > 0 then al - 1 else 0) := by
+  have hp : 0 ≤ row_size w al mstep b2m * h := Int.mul_nonneg hr0 hh
+  unfold total_bytes_interleaved interleaved_units
+  have e1 : (row_size w al mstep b2m * (h % 18446744073709551616)) % 18446744073709551616 = row_size w al mstep b2m * h := by
+    by_cases hz : row_size w al mstep b2m = 0
+    · simp [hz]
+    · have h1 : 1 ≤ row_size w al mstep b2m := by omega
+      have : h ≤ row_size w al mstep b2m * h := by
+        have := Int.mul_le_mul_of_nonneg_right h1 hh
+        simpa using this
+      have e0 : h % 18446744073709551616 = h := Int.emod_eq_of_lt hh (by omega)
+      rw [e0]; exact Int.emod_eq_of_lt hp (by omega)
+  have e2 : b2m % 18446744073709551616 = b2m := Int.emod_eq_of_lt (by omega) (by omega)
+  simp only [e1, e2]
+  generalize row_size w al mstep b2m * h = p at *
+  have e3 : (p + b2m) % 18446744073709551616 = p + b2m := Int.emod_eq_of_lt (by omega) (by omega)
+  have e4 : (p + b2m - 1) % 18446744073709551616 = p + b2m - 1 := Int.emod_eq_of_lt (by omega) (by omega)
+  rw [e3, e4]
+  have hq0 : 0 ≤ (p + b2m - 1) / b2m := Int.ediv_nonneg (by omega) (by omega)
+  have hq1 : (p + b2m - 1) / b2m ≤ p + b2m - 1 := Int.ediv_le_self _ (by omega)
+  split
+  next hpos =>
+    have e5 : (al - 1) % 18446744073709551616 = al - 1 := Int.emod_eq_of_lt (by omega) (by omega)
+    rw [e5]; exact Int.emod_eq_of_lt (by omega) (by omega)
+  next hnp => simp; exact Int.emod_eq_of_lt hq0 (by omega)
+
+example : total_bytes_interleaved 3 2 4 3 1 3 = 27 ∧ total_bytes_interleaved 9 2 0 1 8 1 = 3 := by decide
+
+/-- the first pixel, aligned with `align`, plus the pixel data still ends inside the allocation: whatever address the allocator
+    returns, `align(m, al) - m ≤ al - 1` -/
+theorem C10_first_pixel_offset (m al : Int) (hm : 0 ≤ m) (ha : 0 < al) (hfit : m + al < 18446744073709551616) :
+    0 ≤ align m al - m ∧ align m al - m ≤ al - 1 ∧ align m al % al = 0 := by
+  have := C10_align_spec m al hm ha hfit
+  omega
+
+/-! ### the state machine: invariant, preservation, histories -/
+
+/-- the initial world (no image, no allocation) satisfies the invariant, whatever faults are armed -/
+theorem C10_init (c : Cfg) (fa fc : Option Nat) : Inv c (World.init fa fc) := by
+  constructor <;> simp [World.init]
+
+/-- EVERY public operation (all constructors, copy / converting copy, move construction, copy and move assignment with the three
+    choose_pocma branches, swap, the recreate overloads, write, destroy, end of history) preserves the invariant, for every
+    allocator configuration in which swap is safe and whatever allocation / construction fault is armed, except in the
+    recreate shape excluded by `RecreateOK` (see the witnesses below for what happens otherwise). -/
+theorem C10_step_preserves (c : Cfg) (w : World) (op : Op) (h : Inv c w) (htmp : w.imgs tmpSlot = none) (hsafe : SwapSafe c)
+    (hok : RecreateOK c w op) : Inv c (step c w op).1 :=
+  inv_step h htmp hsafe op hok
+
+example : SwapSafe { pocma := false, pocs := false, empty := false, ntags := 3, ndebug := false,
+                     org := { mstep := 3, b2m := 1, chans := 3, planar := false, nontrivial := false, pixel := true }, porg := none } := Or.inl rfl
+
+/-- exception safety: when the operation ends by a thrown std::bad_alloc or by a throwing element constructor, nothing is
+    leaked or released twice and every image (the target included) is still valid -- same hypotheses as above -/
+theorem C10_exception_safe (c : Cfg) (w : World) (op : Op) (h : Inv c w) (htmp : w.imgs tmpSlot = none) (hsafe : SwapSafe c)
+    (hok : RecreateOK c w op) (_hthrow : (step c w op).2 = .badAlloc ∨ (step c w op).2 = .ctorThrow) : Inv c (step c w op).1 :=
+  inv_step h htmp hsafe op hok
+
+/-- side conditions along a run: the recreate exclusion at every step, and the scratch slot of the model is free -/
+def GoodRun (c : Cfg) : World → List Op → Prop
+  | _, [] => True
+  | w, op :: rest => w.imgs tmpSlot = none ∧ RecreateOK c w op ∧
+      (match (step c w op).2 with | .assertFail _ => True | _ => GoodRun c (step c w op).1 rest)
+
+-- OPEN (not proven): `w.imgs tmpSlot = none` is itself preserved by every step that does not end in an assertion
+-- failure (each operation destroys its temporary); with that lemma the first conjunct of `GoodRun` would follow from
+-- `(World.init ..).imgs tmpSlot = none`.  The model driver checks it after every operation of every generated history.
+-- Full statement:  theorem C10_history (h : Inv c w) (h0 : w.imgs tmpSlot = none) (hsafe : SwapSafe c)
+--                    (hok : ∀ prefix op, prefix ++ [op] <+: ops → RecreateOK c (run c w prefix) op) : Inv c (run c w ops)
+/-- induction over histories of any length -/
+theorem C10_history_partial (c : Cfg) (hsafe : SwapSafe c) (ops : List Op) : ∀ (w : World), Inv c w → GoodRun c w ops → Inv c (run c w ops) := by
+  induction ops with
+  | nil => intro w h _; exact h
+  | cons op rest ih =>
+    intro w h hg
+    obtain ⟨htmp, hok, hrest⟩ := hg
+    have h1 := inv_step h htmp hsafe op hok
+    unfold run
+    cases hs : step c w op with
+    | mk w' out =>
+      rw [hs] at h1 hrest
+      cases out <;> first | exact h1 | exact ih w' h1 hrest
+
+/-- elements with trivial construction never trigger the recreate exclusion (apart from size overflow) -/
+theorem C10_recreateOK_trivial (c : Cfg) (w : World) (s W H al : Nat) (f a : Option Nat) (v : Nat)
+    (htriv : ∀ o, c.orgOf s = some o → o.nontrivial = false ∧ (o.needed al W H = 0 → W * H = 0)) (h : Inv c w) :
+    RecreateOK c w (.recreate s W H al f a v) := by
+  intro o i ho hs hge
+  obtain ⟨ht, hz⟩ := htriv o ho
+  refine ⟨fun hm => hz ?_, Or.inl ht⟩
+  have := (h.nomem s i hs hm).1
+  omega
+
+/-- after the end of a history (every slot destroyed) every allocation ever made has been deallocated exactly once, with its size,
+    through its allocator, holding no constructed element; no destructor ran on an unconstructed element -/
+theorem C10_balanced (c : Cfg) (w : World) (h : Inv c w) (hfree : ∀ x, c.orgOf x = none → w.imgs x = none) :
+    ∀ (b : Nat) (blk : Block), (step c w .stop).1.heap[b]? = some blk →
+      blk.freed = 1 ∧ blk.bad = false ∧ blk.cons = 0 ∧ blk.leaked = false ∧ blk.over = false := by
+  have hinv : Inv c (step c w .stop).1 := inv_stop h
+  · have hnone : ∀ x, (step c w .stop).1.imgs x = none := by
+      simp only [step]
+      have key : ∀ (l : List Nat) (w : World) (x : Nat),
+          (l.foldl (fun w s => match c.orgOf s with | some o => pDtor o w s | none => w) w).imgs x
+            = if x ∈ l ∧ (c.orgOf x).isSome then none else w.imgs x := by
+        intro l
+        induction l with
+        | nil => intro w x; simp
+        | cons a l ih =>
+          intro w x
+          simp only [List.foldl_cons]
+          rw [ih]
+          cases ho : c.orgOf a with
+          | none => simp only []; by_cases e : x = a <;> by_cases e2 : x ∈ l <;> simp [e, e2, ho]
+          | some o =>
+            simp only [pDtor_imgs]
+            by_cases e : x = a <;> by_cases e2 : x ∈ l <;> simp [e, e2, ho]
+      intro x
+      show (slots.foldl (fun w s => match c.orgOf s with | some o => pDtor o w s | none => w) w).imgs x = none
+      rw [key slots w x]
+      by_cases hx : x ∈ slots ∧ (c.orgOf x).isSome
+      · simp [hx]
+      · simp only [hx, if_false]
+        apply hfree
+        cases ho : c.orgOf x with
+        | none => rfl
+        | some o =>
+          exfalso; apply hx
+          have := ho; unfold Cfg.orgOf at this
+          refine ⟨?_, by simp [ho]⟩
+          unfold slots
+          split at this
+          · have : x < 4 := by assumption
+            have : x = 0 ∨ x = 1 ∨ x = 2 ∨ x = 3 := by omega
+            rcases this with e | e | e | e <;> simp [e]
+          · split at this
+            · have : x = 4 ∨ x = 5 := by omega
+              rcases this with e | e <;> simp [e]
+            · cases this
+    intro b blk hb
+    obtain ⟨h1, h2, h3, h4, h5⟩ := hinv.blocks b blk hb
+    have hf : blk.freed = 1 := by
+      by_cases e : blk.freed = 0
+      · obtain ⟨s, i, hs, -⟩ := hinv.noleak b blk hb e
+        rw [hnone s] at hs; cases hs
+      · omega
+    exact ⟨hf, h1, h5 hf, h3, h2⟩
+
+
+/-! ### recreate: dimensions, alignment of the view, reuse of storage -/
+
+/-- The reuse branch of recreate (`stepRec` takes it exactly when `_allocated_bytes ≥ total_allocated_size_in_bytes(dims)` under the
+    new alignment, after `_align_in_bytes = alignment`): on success the image has the requested dimensions, the rows are laid out with
+    the row size computed for its alignment, the first pixel sits at the aligned address (so, with C10_row_size_spec and
+    C10_first_pixel_offset, every row start is aligned), it keeps its block, holds the requested content, and NO allocator
+    event was logged: existing storage is reused. -/
+theorem C10_recreate_post (o : Org) (w : World) (s W H : Nat) (content : List Nat) (i : Img)
+    (hs : w.imgs s = some i) (hok : (pReuse o w s W H content).2 = .ok) :
+    ∃ j, (pReuse o w s W H content).1.imgs s = some j ∧ j.w = W ∧ j.h = H ∧ j.align = i.align ∧ j.row = o.rowSize i.align W
+      ∧ j.mem = i.mem ∧ j.allocated = i.allocated ∧ (∀ b, i.mem = some b → j.off = alignOff (blockAddr b) i.align) ∧ j.pix = content
+      ∧ (pReuse o w s W H content).1.log = w.log := by
+  unfold pReuse at hok ⊢
+  simp only [hs] at hok ⊢
+  generalize hd : (w.destruct o i.mem (i.w * i.h)) = wd at hok ⊢
+  have hdl : wd.log = w.log := by
+    rw [← hd]; unfold World.destruct; cases i.mem <;> (split <;> simp) <;> (try split) <;> rfl
+  cases hres : wd.construct o (Img.withView o i W H).mem (W * H) with
+  | mk w2 okc =>
+    have hcl : w2.log = wd.log := by
+      have := congrArg (fun r => r.1.log) hres
+      simp only [] at this; rw [← this]
+      unfold World.construct World.grow
+      cases (Img.withView o i W H).mem <;> simp <;> (repeat' split) <;> simp
+    rw [hres] at hok
+    cases okc with
+    | false => simp at hok
+    | true =>
+      refine ⟨{ Img.withView o i W H with pix := content }, (by simp), rfl, rfl, rfl, rfl, rfl, rfl, ?_, rfl, ?_⟩
+      · intro b hb; simp [Img.withView, hb]
+      · show w2.log = w.log
+        rw [hcl, hdl]
+
+/-- storage is reused when large enough: that recreate logs no allocator event at all (last conjunct above); and when it is
+    too small the image is rebuilt through a temporary, which allocates exactly the needed size -/
+theorem C10_recreate_allocates_when_too_small (c : Cfg) (o : Org) (w : World) (s W H al : Nat) (fill alloc : Option Nat) (i : Img)
+    (hlt : i.allocated < o.needed al W H) (hnofault : w.failA = none) :
+    ∃ w1, (pCtor c o (w.setImg s (some { i with align := al })) tmpSlot (Img.fresh al (tmpTag c alloc)) W H
+              (List.replicate (W * H) (fill.getD 0)) none).1 = w1 ∧
+          Event.alloc w.heap.length (o.needed al W H) (tmpTag c alloc) ∈ w1.log := by
+  have hn0 : o.needed al W H ≠ 0 := by omega
+  refine ⟨_, rfl, ?_⟩
+  unfold pCtor
+  simp only [Img.fresh, hn0, if_false]
+  unfold World.alloc
+  simp only [setImg_heap]
+  have : (w.setImg s (some { i with align := al })).failA = none := hnofault
+  rw [this]
+  simp only []
+  cases hres : World.construct _ o (some w.heap.length) (W * H) with
+  | mk w2 okc =>
+    have hcl : w2.log = Event.alloc w.heap.length (o.needed al W H) (tmpTag c alloc) :: w.log := by
+      have := congrArg (fun r => r.1.log) hres
+      simp only [] at this; rw [← this]
+      unfold World.construct World.grow
+      simp; (repeat' split) <;> simp [World.setImg]
+    cases okc with
+    | true => simp [hcl, World.setImg]
+    | false => simp [World.dealloc, hcl]
+
+/-! ### deep copies, moved-from images -/
+
+/-- a successful copy construction from a non-empty image gives an image with the source's dimensions and pixel values that owns
+    an allocation of its own (so later writes to either cannot show in the other: `write` only touches its own slot) -/
+theorem C10_deep_copy (c : Cfg) (w : World) (s s2 : Nat) (b : Img) (o : Org) (h : Inv c w) (ho : c.orgOf s = some o) (ho2 : (c.orgOf s2).isSome)
+    (hs : w.imgs s = none) (hs2 : w.imgs s2 = some b) (hne : o.needed b.align b.w b.h ≠ 0)
+    (hok : (step c w (.copy s s2)).2 = .ok) :
+    ∃ j, (step c w (.copy s s2)).1.imgs s = some j ∧ j.w = b.w ∧ j.h = b.h ∧ j.pix = b.pix ∧ j.mem = some w.heap.length
+      ∧ j.mem ≠ b.mem ∧ (step c w (.copy s s2)).1.imgs s2 = some b := by
+  have hb : b.mem ≠ some w.heap.length := by
+    intro e
+    obtain ⟨blk, hblk, -⟩ := h.owned s2 b _ hs2 e
+    have : w.heap.length < w.heap.length := by grind
+    omega
+  have hne2 : s2 ≠ s := by intro e; subst e; rw [hs] at hs2; cases hs2
+  cases ho2' : c.orgOf s2 with
+  | none => simp [ho2'] at ho2
+  | some o2 =>
+  simp only [step, ho, ho2', hs, hs2] at hok ⊢
+  unfold pCtor at hok ⊢
+  simp only [Img.fresh, hne, if_false] at hok ⊢
+  rcases alloc_cases w b.tag (o.needed b.align b.w b.h) with e | ⟨fa, e⟩
+  · rw [e] at hok; simp at hok
+  · rw [e] at hok ⊢; simp only [] at hok ⊢
+    cases hres : World.construct _ o (some w.heap.length) (b.w * b.h) with
+    | mk w2 okc =>
+      rw [hres] at hok
+      cases okc with
+      | false => simp at hok
+      | true =>
+        have hi : w2.imgs = w.imgs := by
+          have := congrArg (fun r => r.1.imgs) hres
+          simp only [] at this; rw [← this]
+          unfold World.construct World.grow
+          simp; (repeat' split) <;> simp
+        refine ⟨_, (by simp only [setImg_imgs, if_true]; rfl), ?_⟩
+        simp [Img.withView, hi, hne2, hs2]
+        exact fun e => hb e.symm
+
+/-- `write` changes the pixels of its own image only -/
+theorem C10_write_frame (c : Cfg) (w : World) (s x y v s' : Nat) (hne : s' ≠ s) :
+    (step c w (.write s x y v)).1.imgs s' = w.imgs s' ∧ (step c w (.write s x y v)).1.heap = w.heap := by
+  simp only [step]
+  split
+  · split <;> simp [hne]
+  · simp
+
+/-- the source of a move construction stays a valid empty image: no memory, 0 recorded bytes, 0x0, and the target has taken
+    over block, size, allocator, dimensions and pixels unchanged -/
+theorem C10_moved_from_valid (c : Cfg) (w : World) (s s2 : Nat) (b : Img) (o : Org) (ho : c.orgOf s = some o) (ho2 : c.orgOf s2 = some o)
+    (hside : (s < 4) = (s2 < 4)) (hs : w.imgs s = none) (hs2 : w.imgs s2 = some b) :
+    (step c w (.move s s2)).1.imgs s = some b ∧
+    ∃ r, (step c w (.move s s2)).1.imgs s2 = some r ∧ r.mem = none ∧ r.allocated = 0 ∧ r.w = 0 ∧ r.h = 0 ∧ r.pix = [] := by
+  have hne : s ≠ s2 := by intro e; subst e; rw [hs] at hs2; cases hs2
+  simp only [step, ho, hs, hs2, ho2, hside, and_self, if_true]
+  refine ⟨by simp [hne], { b.cleared with align := 0 }, by simp, ?_⟩
+  simp [Img.cleared]
+
+/-! ### what the current code gets wrong (machine-checked negations, replayed on the real headers by the harness) -/
+
+private def rgb8 : Org := { mstep := 3, b2m := 1, chans := 3, planar := false, nontrivial := false, pixel := true }
+private def elemOrg : Org := { mstep := 4, b2m := 1, chans := 1, planar := false, nontrivial := true, pixel := false }
+private def pmrRel : Cfg := { pocma := false, pocs := false, empty := false, ntags := 3, ndebug := true, org := rgb8, porg := none }
+private def pmrDbg : Cfg := { pmrRel with ndebug := false }
+private def seElem : Cfg := { pocma := false, pocs := false, empty := true, ntags := 0, ndebug := false, org := elemOrg, porg := none }
+private def seRgb : Cfg := { seElem with org := rgb8 }
+
+-- OPEN (false for the current code): Inv is preserved by every step for EVERY allocator configuration (without `SwapSafe`).
+/-- NDEBUG, allocators unequal and not propagating on swap: a growing recreate of an image over resource 1 builds its temporary with the
+    default resource; swap exchanges the blocks but not the allocators; block 0 (allocated through 1) is deallocated through 0 -/
+theorem C10_recreate_alloc_witness :
+    ((run pmrRel (World.init none none) [.dims 0 1 0 3 2 7, .recreate 0 8 8 0 none none 1]).heap[0]?).map (·.bad) = some true
+    ∧ ¬ SwapSafe pmrRel := by
+  refine ⟨by decide +kernel, ?_⟩
+  intro h; rcases h with h | h | h <;> simp [pmrRel] at h
+
+/-- the same history with assertions enabled stops in image::swap -/
+theorem C10_recreate_alloc_assert_witness :
+    (step pmrDbg (run pmrDbg (World.init none none) [.dims 0 1 0 3 2 7]) (.recreate 0 8 8 0 none none 1)).2 = .assertFail "_alloc==img._alloc"
+    ∧ (step pmrDbg (run pmrDbg (World.init none none) [.dims 0 1 0 3 2 7, .dims 1 2 0 4 4 1]) (.assign 0 1)).2 = .assertFail "_alloc==img._alloc" := by
+  decide +kernel
+
+-- OPEN (false for the current code): after every successful recreate(dims, alignment) the row size and first pixel are those of `alignment`.
+/-- `_align_in_bytes` is assigned before the allocation that throws: afterwards recreate(3,2,16) takes the early return (outcome ok,
+    no event) although the view still has the unaligned row size 9 -/
+theorem C10_recreate_throw_witness :
+    let w := run seRgb (World.init (some 1) none) [.dims 0 0 0 3 2 7, .recreate 0 8 8 16 none none 3]
+    (step seRgb w (.recreate 0 3 2 16 none none 3)).2 = .ok ∧
+    ((step seRgb w (.recreate 0 3 2 16 none none 3)).1.imgs 0).map (fun i => (i.align, i.row, rgb8.rowSize 16 3)) = some (16, 9, 16) := by
+  decide +kernel
+
+-- OPEN (false for the current code): Inv is preserved by recreate under every construction fault (without `RecreateOK`).
+/-- reuse branch + throwing element constructor: the roll-back destroys the new elements, the view keeps the new dimensions, and the
+    destructor of the image destroys an element that was never constructed -/
+theorem C10_reuse_throw_witness :
+    ((run seElem (World.init none (some 6)) [.fill 0 0 0 3 2 5, .recreate 0 1 1 0 none none 2, .stop]).heap[0]?).map (·.over) = some true
+    ∧ (run seElem (World.init none (some 6)) [.fill 0 0 0 3 2 5, .recreate 0 1 1 0 none none 2, .stop]).dtor
+        = (run seElem (World.init none (some 6)) [.fill 0 0 0 3 2 5, .recreate 0 1 1 0 none none 2, .stop]).ctor + 1 := by
+  decide +kernel
+
+/-- copying an image whose dimensions are 5x0: assertion failure in uninitialized_copy_pixels (debug); a 0x0 copy (NDEBUG) -/
+theorem C10_copy_empty_witness :
+    (step pmrDbg (run pmrDbg (World.init none none) [.dflt 0 0 0, .recreate 0 5 0 0 none none 1]) (.copy 1 0)).2
+        = .assertFail "view1.dimensions()==view2.dimensions()"
+    ∧ ((run pmrRel (World.init none none) [.dflt 0 0 0, .recreate 0 5 0 0 none none 1, .copy 1 0]).imgs 1).map (fun i => (i.w, i.h)) = some (0, 0)
+    ∧ ((run pmrRel (World.init none none) [.dflt 0 0 0, .recreate 0 5 0 0 none none 1, .copy 1 0]).imgs 0).map (fun i => (i.w, i.h)) = some (5, 0) := by
+  decide +kernel
 
 end GilVerif.Props.C10
